@@ -900,6 +900,37 @@ Proof.
   rewrite Hs. lia.
 Qed.
 
+(* (4) both byte counters against the bytes actually moved, for ANY receive
+   sequence (matching the sender or not, complete or not, failing or not), any
+   segmentation, EOF with or after the final bytes: Sent is the number of
+   bytes handed to the transport; Recvd is the number of bytes pulled from
+   the transport (what was handed over minus what the transport still holds);
+   when the receiver has consumed the stream exactly the two are equal; and
+   the matching receive sequence of a flushed script does consume it exactly.
+   ReceiveData of a payload larger than the read buffer is included: its loop
+   asks Fill for min(need, readBufSize) again and again and every byte passes
+   through Fill's accounting. *)
+Theorem stats_agree nbuf wcap rcap ops frags eofdata tys :
+  16 <= wcap -> 16 <= rcap ->
+  let s := run_sender nbuf wcap ops in
+  let out := recv_all rcap tys (r_init (mkT (wire_bytes s) frags eofdata 0)) in
+  s_sent s = nlen (wire_bytes s) /\
+  r_recvd (fst out) + nlen (t_stream (r_t (fst out))) = nlen (wire_bytes s) /\
+  (all (fst out) = [] -> r_recvd (fst out) = s_sent s) /\
+  (close_only_last ops -> ends_flushed ops -> Forall op_in_domain ops -> tys = types_of ops ->
+   snd out = Some (values_of ops) /\ r_recvd (fst out) = s_sent s).
+Proof.
+  intros Hw Hr s out.
+  pose proof (sender_counters nbuf wcap ltac:(lia) Hw ops) as (Hs & _). cbn zeta in Hs. fold s in Hs.
+  pose proof (recv_all_refines rcap Hr tys _ (RInv_init rcap (mkT (wire_bytes s) frags eofdata 0))) as H.
+  cbn zeta in H. fold out in H. destruct H as (_ & Hp & _).
+  unfold pulled in Hp. cbn [r_init r_recvd r_t t_stream] in Hp.
+  split; [exact Hs|]. split; [lia|]. split.
+  - intros Ha. unfold all in Ha. apply app_eq_nil in Ha. destruct Ha as (_ & Ha). rewrite Ha in Hp. cbn in Hp. lia.
+  - intros Hc Hf Hd ->. destruct (roundtrip nbuf wcap rcap ops frags eofdata Hw Hr Hc Hf Hd) as (H1 & _ & H3 & _).
+    split; assumption.
+Qed.
+
 (* ================================================================== D. ring *)
 
 Close Scope N_scope.
@@ -1180,6 +1211,14 @@ Proof.
 Qed.
 
 (* a receive past the end of a closed stream reports EOF *)
+(* a payload (40 bytes) larger than write and read buffer (16): counters and window positions *)
+Example big_payload_counters :
+  let s := run_sender 3 16 [OData (repeat 9 40); OClose] in
+  let out := recv_all 16 [TData] (r_init (mkT (wire_bytes s) [5; 100] false 0)) in
+  snd out = Some [VData (repeat 9 40)] /\ s_sent s = 44 /\ r_recvd (fst out) = 44 /\
+  t_nreads (r_t (fst out)) = 4 /\ r_start (fst out) = 7 /\ r_end (fst out) = 7.
+Proof. vm_compute. repeat split; reflexivity. Qed.
+
 Example overread_is_eof :
   snd (recv_ty 16 TU32 (r_init (mkT [1; 2; 3] [] false 0))) = inr EEOF /\
   snd (recv_ty 16 TU32 (r_init (mkT [1; 2; 3] [] true 0))) = inr EEOF /\
